@@ -481,9 +481,14 @@ func TestCampaignCorpus(t *testing.T) {
 }
 
 // matchKnown: C05-xml-space-preserve needs xml:space="preserve" in the source and a failure about that attribute or about text whitespace.
+var reLongMantissa = regexp.MustCompile(`[0-9]{20,}`)
 var reDotExponent = regexp.MustCompile(`[0-9]\.[eE][-+]?[0-9]`)
 
 func matchKnown(c Case, err error) string {
+	// more than 19 digits: strconv.ParseFloat of the dependency can be off by a factor of ten
+	if err != nil && reLongMantissa.MatchString(c.Src) && (strings.Contains(err.Error(), "geometry changed") || strings.Contains(err.Error(), "<path d>")) {
+		return "C05-long-mantissa-parsefloat"
+	}
 	// 1.e0: digits, dot, exponent - a number of the path grammar that the lexer of the dependency splits after the dot
 	if err != nil && reDotExponent.MatchString(c.Src) && (strings.Contains(err.Error(), "geometry changed") || strings.Contains(err.Error(), "<path d>") || strings.Contains(err.Error(), "not valid")) {
 		return "C05-number-dot-exponent"
